@@ -84,6 +84,7 @@ def s1(ck, an):
             for col in (f"{pp}.astype(float)[{{c}}]", f"{pp}[{{c}}].astype(float)"):
                 for drop in (".dropna(inplace=True)", ".dropna()"):
                     rows.append(col + drop + ".items()")
+                    rows.append(f"zip({col + drop}.index, {col + drop})")        # a Series iterates over its values: the same (label, value) pairs
             # the column's rows, by value id: the given prices as floats, with ONLY the missing ones dropped (a zero or any other price is a quote)
             cn = loop_item(fa, outer).key() if outer is not None and outer is not inner and isinstance(outer.target, ast.Name) else "?"
             wants = [fa.sym.canon(ast.parse(t.format(c="__col__"), mode="eval").body, at_i).replace("__col__", cn) for t in rows]
@@ -217,14 +218,17 @@ def xy_init(ck, an):
 
 def s2(ck, an):
     fm = an.fa("TradingEnvXY._make_transmitter")
-    evs = [d for d in fm.rd.defs if d.kind == "assign" and isinstance(d.value, ast.ListComp) and "EventNewObservation" in ast.unparse(d.value)]
+    # by value id: some add_events call receives exactly one EventNewObservation(t, row) per row of X (comprehension, loop, starmap, temporaries alike)
     ok = False
-    for d in evs:
-        lc = d.value
-        g = lc.generators[0]
-        if ast.unparse(g.iter) == "X.iterrows()" and not g.ifs and isinstance(g.target, ast.Tuple) and [ast.unparse(a) for a in lc.elt.args] == [e.id for e in g.target.elts]:
-            ae = [c for c in fm.calls_named("add_events") if c.args and ast.unparse(c.args[0]) == d.var]
-            ok = bool(ae)
+    xp = fm.f.params[1]
+    for c in fm.calls_named("add_events"):
+        if not c.args:
+            continue
+        at_ = fm.node_of(c).id
+        got_ = fm.sym.canon(c.args[0], at_)
+        want_ = fm.sym.canon(ast.parse(f"[EventNewObservation(t, x) for t, x in {xp}.iterrows()]", mode="eval").body, at_)
+        if got_ == want_:
+            ok = True
     ck.check(ok, "ARGFLOW", "S2.one-observation-per-row", fm.f.short, fm.f.loc, "one EventNewObservation(t, row) per row of X, all added to the transmitter", "observation events are not built from every row of X",
              construct="events = [EventNewObservation(t, x) for t, x in X.iterrows()]")
 
